@@ -19,6 +19,7 @@ func init() {
 			Assumptions: []string{"recover() semantics of the Go runtime", "panics on other goroutines are out of scope (none are started: checked)"},
 			Trusted:     []string{"go/packages", "go/types", "go/ssa"},
 			RuleDoc: map[string]string{
+				"R9.state":    "no memory of earlier calls: on the call tree only frozen package-level variables are touched (known exceptions listed with reasons), and no package-level object is handed out",
 				"R1.recover":  "deferred closure with direct recover() storing a Panic-kind error; no go statements",
 				"R2.kinds":    "error kind per failing site; kind constants and texts distinct; IsErrorOfType shape; Generate's error kinds",
 				"R3.nosilent": "error results tested at once; non-nil edge reaches only non-nil returns; success only after both loops completed",
@@ -31,6 +32,7 @@ func init() {
 }
 
 func runC04(c *Ctx) {
+	stateRule(c, "R9.state", []*ssa.Function{c.w.Func("gensign", "Run")}, knownState)
 	w := c.w
 	m := resolveGensign(w)
 	for _, p := range m.problems {
@@ -572,6 +574,11 @@ func runC04(c *Ctx) {
 				continue
 			}
 			ok := true
+			if !u.Tested && blockInCycle(call.Block()) {
+				// handed to the return behind the loop without a test inside it: the next iteration's result replaces it
+				c.Bad("R5.agentkey", key+" error returned", w.Pos(call.Pos()), "the agent's error is not tested where it arises, inside a loop: a failure in one iteration is overwritten by the next one and only the last outcome is reported")
+				continue
+			}
 			if u.Tested {
 				for _, r := range liveReturns(fn) {
 					if n, k := ff.KnownNil(r.Block(), u.Err); k && !n {
@@ -610,6 +617,75 @@ func runC04(c *Ctx) {
 				}
 			}
 			c.Check(ok, "R5.agentkey", key+" error returned", w.Pos(call.Pos()), "non-nil edge returns a non-nil error", "an error from the agent does not end the operation with an error")
+		}
+	}
+	// every signing request of the loop goes to the CA: no iteration of the request loop comes round again without the
+	// Sign call (a memo hit that stands in for the CA's answer means a certificate the CA never signed reaches the agent)
+	{
+		site := ssa.Instruction(m.SignCall)
+		if !blockInCycle(site.Block()) && m.SignCall.Parent() != run {
+			if sites := w.sitesIn(run, m.SignCall.Parent()); len(sites) == 1 {
+				site = sites[0].(ssa.Instruction)
+			}
+		}
+		sb := site.Block()
+		var header *ssa.BasicBlock
+		for d := sb.Idom(); d != nil; d = d.Idom() {
+			reaches := false
+			seen := map[*ssa.BasicBlock]bool{}
+			work := append([]*ssa.BasicBlock{}, sb.Succs...)
+			for len(work) > 0 {
+				x := work[len(work)-1]
+				work = work[:len(work)-1]
+				if x == d {
+					reaches = true
+					break
+				}
+				if seen[x] || !d.Dominates(x) {
+					continue
+				}
+				seen[x] = true
+				work = append(work, x.Succs...)
+			}
+			if reaches {
+				header = d
+				break
+			}
+		}
+		if header == nil {
+			c.Und("R3.nosilent", "Run|every request of the loop is signed", w.Pos(site.Pos()), "the Sign call is not inside a loop over the signing requests")
+		} else {
+			// a way round the loop that avoids the Sign call's block
+			var skipAt *ssa.BasicBlock
+			seen := map[*ssa.BasicBlock]bool{}
+			var walk func(b *ssa.BasicBlock)
+			walk = func(b *ssa.BasicBlock) {
+				if seen[b] || b == sb || !header.Dominates(b) || skipAt != nil {
+					return
+				}
+				seen[b] = true
+				for _, x := range b.Succs {
+					if x == header {
+						skipAt = b
+						return
+					}
+					walk(x)
+				}
+			}
+			for _, x := range header.Succs {
+				if x != header {
+					walk(x)
+				}
+			}
+			pos := w.Pos(site.Pos())
+			if skipAt != nil && len(skipAt.Instrs) > 0 {
+				for _, ins := range skipAt.Instrs {
+					if ins.Pos().IsValid() {
+						pos = w.Pos(ins.Pos())
+					}
+				}
+			}
+			c.Check(skipAt == nil, "R3.nosilent", "Run|every request of the loop is signed", pos, "no way round the request loop avoids signer.Sign", "an iteration of the request loop can come round without calling signer.Sign: a request the CA never saw is treated as signed")
 		}
 	}
 	c.Floor("R5.agentkey", nAg, 4, "agent List/Remove/Add call sites in agent/ssh")
@@ -818,4 +894,23 @@ func leadsOnlyToReturns(b *ssa.BasicBlock, pred func(*ssa.BasicBlock) bool) bool
 		return true
 	}
 	return rec(b)
+}
+
+// blockInCycle: control can come back to b after leaving it.
+func blockInCycle(b *ssa.BasicBlock) bool {
+	seen := map[*ssa.BasicBlock]bool{}
+	work := append([]*ssa.BasicBlock{}, b.Succs...)
+	for len(work) > 0 {
+		x := work[len(work)-1]
+		work = work[:len(work)-1]
+		if x == b {
+			return true
+		}
+		if seen[x] {
+			continue
+		}
+		seen[x] = true
+		work = append(work, x.Succs...)
+	}
+	return false
 }
